@@ -397,3 +397,5 @@ M("state-class-level-operators", "C14", "esf/scale_variations.py", "        self
 B("state-module-memo-complete", "C14", CFD + "heavy/n3lo/__init__.py", "    grid_name = f\"{coeff}_nf{int(nf)}_var{int(variation)}.npy\"", "    grid_name = \"%s_nf%d_var%d.npy\" % (coeff, int(nf), int(variation))")
 M("state-module-memo-stale", "C14", CFD + "heavy/n3lo/__init__.py", "    if grid_name in interpolators:\n        return interpolators[grid_name]", "    key = f\"{coeff}_nf{int(nf)}\"\n    if key in interpolators:\n        return interpolators[key]", expect="C14.state",
   more=[(CFD + "heavy/n3lo/__init__.py", "    interpolators[grid_name] = grid_interpolator", "    interpolators[key] = grid_interpolator")])
+M("c15-pids-revert", "C15", OUF, '        out["pids"] = np.array(self["pids"]).tolist()', '        out["pids"] = list(self["pids"])', expect="C15.roundtrip")
+M("c15-tar-dict-revert", "C15", OUF, "                    if isinstance(metavalue, dict):\n                        # e.g. the grid of an output loaded from YAML is an array\n                        metadata[metafield] = {\n                            k: np.array(v).tolist() for k, v in metavalue.items()\n                        }\n                    else:\n                        metadata[metafield] = np.array(metavalue).tolist()", "                    metadata[metafield] = np.array(metavalue).tolist()", expect="C15.roundtrip")
